@@ -314,7 +314,7 @@ class Poly:
         if not self.t:
             return z3.RealVal(0)
         terms = []
-        for k, c in self.t.items():
+        for k, c in sorted(self.t.items(), key=lambda kc: mkey(kc[0])):
             fs = []
             for v, e in k:
                 if e < 0:
@@ -639,8 +639,13 @@ class BoolCount:
     __slots__ = ("items", "base")
 
     def __init__(self, items, base=0):
-        self.items = list(items)
+        self.items = []
         self.base = base
+        for b in items:
+            if b.val is None:
+                self.items.append(b)
+            elif b.val:
+                self.base += 1
 
     def __add__(self, o):
         if isinstance(o, BoolCount):
@@ -771,8 +776,13 @@ def decide(expr):
         P.forks += 1
         if P.forks > MAX_FORKS_PER_PATH:
             raise PathAbort("fork budget per path exceeded")
-        ft = _quick_feasible(P, expr)
-        ff = _quick_feasible(P, z3.Not(expr))
+        if tier2:
+            # ordering forks (argmax): both sides are explored without a solver call; an infeasible side only yields
+            # vacuous obligations (over-approximation is sound)
+            ft = ff = True
+        else:
+            ft = _quick_feasible(P, expr)
+            ff = _quick_feasible(P, z3.Not(expr))
         if ft and ff:
             d = True
             P.pending.append(list(P.decisions) + [False])
@@ -1089,10 +1099,22 @@ class Alg:
             c = n.cval()
             if eqlike or c == 0:
                 return TRUE if op(c, 0) else FALSE
-        zn = n.z3()
+        if d is None and not g:
+            sk = _sign_known(Alg(n))
+            if sk in (1, -1):
+                return TRUE if op(sk, 0) else FALSE
+            if sk == 2 and op in (operator.ge, operator.lt):
+                return TRUE if op is operator.ge else FALSE
+            if sk == -2 and op in (operator.le, operator.gt):
+                return TRUE if op is operator.le else FALSE
+        # canonical atom: leading coefficient 1 (p == 0 and -2p == 0 become the same z3 atom)
+        lm, lc = n.lead()
+        flip = lc < 0
+        if lc != 1:
+            n = n.scale(_cdiv(1, lc))
         if eqlike:
-            return SymBool(op(zn, 0))
-        # sign corrections: n_orig = n / g ; value = n_orig / d
+            return _atom(P, n, "eq" if op is operator.eq else "ne")
+        # sign corrections: n_orig = lc * n / g ; value = n_orig / d
         sgn = []
         for v, e in g:
             if e % 2 and v not in P.positive:
@@ -1103,9 +1125,11 @@ class Alg:
             for v, e in g2:
                 if e % 2 and v not in P.positive:
                     sgn.append(P.vars[v].z)
+        if flip:
+            op = {operator.lt: operator.gt, operator.le: operator.ge, operator.gt: operator.lt, operator.ge: operator.le}[op]
         if not sgn:
-            return SymBool(op(zn, 0))
-        t = zn
+            return _atom(P, n, op.__name__)
+        t = _atom_term(P, n)
         for s_ in sgn:
             t = t * s_
         return SymBool(op(t, 0))
@@ -1195,6 +1219,33 @@ class Alg:
 
 
 numbers.Real.register(Alg)
+
+_OPS = {"eq": operator.eq, "ne": operator.ne, "lt": operator.lt, "le": operator.le, "gt": operator.gt, "ge": operator.ge}
+
+
+def _atom_term(P, n):
+    memo = P.__dict__.setdefault("_atoms", {})
+    k = (n.key(), "z")
+    base = memo.get(k)
+    if base is None:
+        base = n.z3()
+        memo[k] = base
+    return base
+
+
+def _atom(P, n, opname):
+    memo = P.__dict__.setdefault("_atoms", {})
+    key = (n.key(), opname)
+    r = memo.get(key)
+    if r is None:
+        base = _atom_term(P, n)
+        if opname == "ne":
+            r = SymBool(z3.Not(base == 0))
+        else:
+            r = SymBool(_OPS[opname](base, 0))
+        memo[key] = r
+    return r
+
 
 INF = Alg(ZERO, None, "inf")
 NAN = Alg(ZERO, None, "nan")
